@@ -95,8 +95,8 @@ func probeOpcodes(args []string) (any, error) {
 			}
 			return c
 		}
-		n0, e0, p0 := disasmOne(filler(0), 70000)
-		nf, ef, pf := disasmOne(filler(0xff), 70000)
+		n0, e0, p0 := disasmOne(filler(0), 1)
+		nf, ef, pf := disasmOne(filler(0xff), 1)
 		unknown := func(e error) bool { return e != nil && strings.HasPrefix(e.Error(), "unknown operation") }
 		switch {
 		case p0 != "" && pf != "":
@@ -115,7 +115,7 @@ func probeOpcodes(args []string) (any, error) {
 			}
 			for l := 1; l <= 12; l++ {
 				c := filler(0xff)[:l]
-				_, e, p := disasmOne(c, 70000)
+				_, e, p := disasmOne(c, 1)
 				if p == "" && (e == nil || e.Error() != "not enough bytes") {
 					r.MinBytes = l
 					break
@@ -130,7 +130,7 @@ func probeOpcodes(args []string) (any, error) {
 		if r.Known && r.Width != r.WidthFF && r.WidthFF == 2 {
 			for fl := 0; fl < 4; fl++ {
 				c := []byte{byte(r.Byte), byte(fl), 0xff, 0xff, 0xff, 0xff, 0xff, 0xff}
-				n, e, p := disasmOne(c, 70000)
+				n, e, p := disasmOne(c, 1)
 				if p == "" && e == nil {
 					entry[fmt.Sprintf("%s.%d", r.Name, fl)] = n - 2
 				}
@@ -361,7 +361,7 @@ func dumpOne(req *DumpReq) (ans *DumpAns, mustExit bool) {
 // FlattenFunctions walks the constant pools (and the methods that call-site constants point to)
 // and returns every bytecode function once, the root first. Constants are rendered as kind tokens:
 //
-//	f<k> function k | c<argc> CallSiteInfo | b<argc>.<tail>.<k> BytecodeCallSiteInfo | n<argc>.<params> NativeCallSiteInfo
+//	f<k> function k | c<argc>~<name> CallSiteInfo | b<argc>.<tail>.<k> BytecodeCallSiteInfo | n<argc>.<params> NativeCallSiteInfo
 //	s inline symbol | i<n> SmallInt | u undefined | t true | F false | z nil | S<pops> *vm.Select | o anything else
 func FlattenFunctions(root *vm.BytecodeFunction, srcName string) []DumpFunc {
 	index := map[*vm.BytecodeFunction]int{}
@@ -438,7 +438,7 @@ func constToken(c value.Value, visit func(*vm.BytecodeFunction) int) string {
 	case *vm.BytecodeFunction:
 		return "f" + strconv.Itoa(visit(r))
 	case *vm.CallSiteInfo:
-		return "c" + strconv.Itoa(r.ArgumentCount)
+		return "c" + strconv.Itoa(r.ArgumentCount) + "~" + sanitize(r.Name.String())
 	case *vm.BytecodeCallSiteInfo:
 		t := 0
 		if r.TailCall {
